@@ -127,11 +127,27 @@ make_image(const Cfg& k)
   SplitMix r(k.iseed);
   Vec x(std::size_t(k.g.N()));
   const double u0 = r.real(0.2, 1.);
+  // AUD_E degenerate images (imode 4..6): zero everywhere / exactly one non-zero voxel / values over three decades with exact zeros
+  // (all legal: the priors are defined for non-negative images; RDP has epsilon > 0 so that psi(0,0) = 0/epsilon)
+  const std::size_t hot = x.empty() ? 0 : std::size_t(SplitMix(k.iseed ^ 0x51ULL).range(0, long(x.size()) - 1));
+  std::size_t idx = 0;
   for (auto& v : x)
     {
       double t;
+      const std::size_t i = idx++;
       switch (k.imode)
         {
+        case 4:
+          t = 0.;
+          break;
+        case 5:
+          t = i == hot ? u0 : 0.;
+          break;
+        case 6:
+          t = std::pow(10., r.real(-3., 0.));
+          if (r.range(0, 7) == 0)
+            t = 0.;
+          break;
         case 1:
           t = u0;
           break;
@@ -165,6 +181,8 @@ make_kappa(const Cfg& k, const Grid& g)
         t = 0.;
       if (k.kmode == 3)
         t = k.kconst;
+      if (k.kmode == 4)
+        t = 0.; // AUD_E: kappa zero everywhere (legal, no lower bound documented): value, gradient, Hessian vanish
       e = double(float(t));
     }
   return v;
@@ -1997,9 +2015,12 @@ check(const json& c)
   const Cfg k = decode(c);
   stats().cls(std::string("prior ") + kind_name(k.kind));
   stats().cls(k.wmode == 0 ? "weights default 3D" : (k.wmode == 1 ? "weights default only_2D" : cat("weights user ", 2 * k.hz + 1, "x", 2 * k.hy + 1, "x", 2 * k.hx + 1)));
-  stats().cls(k.kmode == 0 ? "kappa none" : (k.kmode == 1 ? "kappa positive" : (k.kmode == 2 ? "kappa with zeros" : "kappa constant")));
-  static const char* im[] = { "image random", "image uniform", "image coarse values with zeros and ties", "image nearly uniform" };
-  stats().cls(im[k.imode & 3]);
+  stats().cls(k.kmode == 0 ? "kappa none" : (k.kmode == 1 ? "kappa positive" : (k.kmode == 2 ? "kappa with zeros" : (k.kmode == 4 ? "kappa zero everywhere" : "kappa constant"))));
+  static const char* im[] = { "image random", "image uniform", "image coarse values with zeros and ties", "image nearly uniform",
+                              "image zero everywhere", "image with exactly one non-zero voxel", "image values over three decades with zeros", "image random" };
+  stats().cls(im[k.imode & 7]);
+  if (k.wmode == 2 && k.wzero >= 8)
+    stats().cls("user weights all zero");
   if (k.g.nz == 1 || k.g.ny == 1 || k.g.nx == 1)
     stats().cls("singleton dimension");
   if (k.g.N() == 1)
@@ -2067,18 +2088,18 @@ gen_classic(Src& s, int size)
       c["hy"] = hy;
       c["hx"] = hx;
       c["wseed"] = s.seed64();
-      c["wzero"] = int(s.range(0, 4));
+      c["wzero"] = s.chance(1, 12) ? 8 : int(s.range(0, 4)); // eighths of zero weights; AUD_E: 8 = every off-centre weight is zero (legal: the prior vanishes)
       // a non-zero centre weight must not matter: psi(x,x) == 0 (regression: replays/C09/fixed_F1_*)
       c["wcentre"] = s.chance(1, 4) ? s.nice_real(0.1, 2.) : 0.;
     }
   // construction path: explicit constructor (+set_weights) or parsing / setters
   c["construct"] = s.chance(1, 3) ? 1 : 0;
   // kappa
-  c["kmode"] = int(s.pick(std::vector<int>{ 0, 1, 1, 2, 2, 3 }));
+  c["kmode"] = s.chance(1, 16) ? 4 : int(s.pick(std::vector<int>{ 0, 1, 1, 2, 2, 3 })); // AUD_E: 4 = kappa zero everywhere
   c["kseed"] = s.seed64();
   c["kconst"] = s.nice_real(0.2, 3.);
   // image
-  c["imode"] = int(s.pick(std::vector<int>{ 0, 0, 0, 2, 2, 3, 1 }));
+  c["imode"] = s.chance(1, 6) ? int(s.pick(std::vector<int>{ 4, 5, 5, 6, 6, 6 })) : int(s.pick(std::vector<int>{ 0, 0, 0, 2, 2, 3, 1 })); // AUD_E: 4..6 degenerate images
   c["iseed"] = s.seed64();
   const double iscale = s.pick(std::vector<double>{ 1., 1., 100., 0.01, 10. });
   c["iscale"] = iscale;
